@@ -20,6 +20,7 @@ import Props.C16
 import Proofs.Exact
 import Proofs.Corr
 import Proofs.PeaksMax
+import Proofs.CopySeed
 namespace Coma.Props
 open Coma Coma.Spec
 
@@ -106,6 +107,37 @@ example : (refineCorrelation { res := 100, blur := 1, margin := 600, thr := 5, k
             { id := 2, length := 1101, positions := [0, 700, 1100] } false 1000).toOption
           = some [2, 2, 2, 2, 3, 5, 7, 5, 3, 2, 3, 3, 3] ∧
     findPeaksSecondary 5 [2, 2, 2, 2, 3, 5, 7, 5, 3, 2, 3, 3, 3] = [(6, 7)] := by decide +kernel
+
+/-- THE SECONDARY STAGE PLACES AN EXACT COPY (label level, default resolution 100 bp and blur 4, forward strand):
+    if the query's labels are an exact copy of `n ≥ 13` consecutive reference labels whose spacing is at least 2 kb,
+    the refinement window starts at least 500 bp before the first copied label and contains the reference label
+    that follows the copied window (`CopyInWindow`), then among the peaks that pass `find_peaks` in `refine` there is
+    one whose bin centre is within 200 bp of the true placement `ref.positions[i]` — a seed that satisfies the
+    hypothesis of `C06_exact_given_seed`.  (The proof shows the peak at the true lag or the next one, i.e. between
+    50 bp before and 149 bp after the true placement.) -/
+theorem C06_secondary_seed_near_truth (c : SecCfg) (ref q : OMap) (peak : Int) (i n : Nat)
+    (H : Coma.Proofs.CopyInWindow c ref q peak i n) :
+    ∃ corr, refineCorrelation c ref q false peak = .ok corr ∧
+      ∃ p h, (p, h) ∈ findPeaksSecondary c.thr (corr.map Int.ofNat) ∧
+        toBp (p : Int) 100 (peak - c.margin) - ref.positions.getD i 0 ≤ 200 ∧
+        ref.positions.getD i 0 - toBp (p : Int) 100 (peak - c.margin) ≤ 200 :=
+  Coma.Proofs.secondary_seed_near_copy c ref q peak i n H
+
+/-- non-vacuity of `CopyInWindow`: 15 reference labels 2 100 bp apart, the query copies labels 1..13, default
+    secondary parameters, primary peak 700 bp off -/
+example : Coma.Proofs.CopyInWindow {} ⟨1, 40000, (List.range 15).map (fun (k : Nat) => (1000 + 2100 * (k : Int) : Int)), 0⟩
+    ⟨2, 25201, (List.range 13).map (fun (k : Nat) => (2100 * (k : Int) : Int)), 0⟩ 3800 1 13 where
+  res := rfl
+  blur := rfl
+  thr := by decide
+  many := by decide
+  gaps := by decide
+  nonneg := by decide
+  inside := by decide
+  copy := by decide
+  start := by decide
+  next := by decide
+  stopnz := by decide
 
 /-- non-vacuity: a concrete instance of the hypotheses (10 labels, window of 5, reverse strand,
     seed 200 bp off) -/
